@@ -149,6 +149,8 @@ def make(interp):
     jnp["ravel_multi_index"] = B(ravel_multi_index); jnp["unravel_index"] = B(unravel_index); jnp["argsort"] = B(argsort)
     def product(*ranges):
         """itertools.product: lexicographic order, last factor fastest (assumed library contract)"""
+        from ..interp import SymRange
+        ranges = [A.arange(r.lo, r.hi) if isinstance(r, SymRange) else r for r in ranges]
         ranges = [r if isinstance(r, SArr) else A.from_value(list(r)) for r in ranges]
         dims = tuple(r.shape[0] for r in ranges); rows = A.prod(dims); rows = z3.simplify(rows) if is_z3(rows) else rows
         def get(idx):
@@ -172,7 +174,7 @@ def make(interp):
         return arr_from_list(list(xs) * r)
     def repeat1(x, reps, axis=None):
         if axis is None and not isinstance(x, SArr): return arr_from_list([x] * _ci(reps))
-        raise Unsupported("np.repeat on arrays (bounded-only: Mirjalili event space)")
+        return A.repeat_rows(x, reps, axis)
     jnp["tile"] = B(tile)
     def cumprod(x):
         xs = interp.iterate(A.from_value(x)); out = []; acc = 1
@@ -184,7 +186,7 @@ def make(interp):
     r_obj = Obj("np.r_", {}, label="np.r_")
     jnp["cumprod"] = B(cumprod); jnp["append"] = B(append); jnp["r_"] = {"__r__": True}
     np = dict(jnp)
-    np["log10"] = B(log10); np["floor"] = B(floor)
+    np["log10"] = B(log10); np["floor"] = B(floor); np["repeat"] = B(repeat1, "numpy.repeat")
     def dynamic_slice_in_dim(operand, start_index, slice_size, axis=0):
         """jax.lax.dynamic_slice_in_dim: the start index is CLAMPED so that the slice fits (documented JAX behaviour)"""
         if axis != 0: raise Unsupported("dynamic_slice_in_dim axis")
